@@ -15,6 +15,7 @@ from harness import checklib  # noqa: E402
 
 
 def run(c):
+    pe.run_design(c, histories=False)
     K = 3 if c.thorough else 2
     cases = []
     nh = 0
@@ -43,6 +44,16 @@ def run(c):
         for spec in [("prio", "driver"), ("random", seed, 0.7), ("pct", seed, 3)][: (3 if c.thorough else 2)]:
             cases.append((params, spec))
     recs = pe.run_cases(c, cases, "random paced histories")
+    pe.validate(c, "C01", recs)
+    # known finding D7: a directory that left the tree keeps its kernel watch; moving an entry into / out of it out
+    # there is seen as a rename inside the tree
+    cases = []
+    for k, ops in enumerate([[["mkdir", "b"], ["moveout", "a", "z"], ["drain"], ["moveout", "b", "z/b"], ["drain"]],
+                             [["moveout", "a", "z"], ["drain"], ["movein", "z/a", "c"], ["drain"]]]):
+        params = dict(pe.START["small"], ops=ops, recursive=True, paced=True)
+        for spec in pe.timings(c.seed + k, n_random=1, n_pct=0):
+            cases.append((params, spec))
+    recs = pe.run_cases(c, cases, "entries moved into / out of a directory that left the tree (D7)")
     pe.validate(c, "C01", recs)
     c.cov["rule"] = ("histories: all paths of <= %d operations in the TLC graph of FsGen.tla from 3 start trees (exhaustive) + %d "
                      "seeded random paced histories; each executed on the real observer/kernel under 3-5 timings; distinct = "
